@@ -7,7 +7,7 @@ ROOT = os.path.dirname(os.path.dirname(os.path.abspath(__file__)))
 sys.path.insert(0, os.path.join(ROOT, "tools"))
 EXTRA = {"C06-m2": ["C09"], "C05-m2": ["C06", "C07"], "C06-m1": ["C07"], "C17-m2": ["C07"], "C07-m3": ["C17"], "C13-m2": ["C04"], "C04-m1": ["C13"],
          "C19-m3": ["C02"], "C12-m3": ["C01"], "C09-m1": ["C08"], "C08-m2": ["C09"], "C01-m9": ["C04"], "C08-m7": ["C07"], "C14-m6": ["C05"],
-         "C05-m4": ["C14"], "C19-m7": ["C02"], "C06-m4": ["C09"]}
+         "C05-m4": ["C14"], "C19-m7": ["C02"], "C06-m4": ["C09"], "C09-m7": ["C06"], "C13-m9": ["C11"], "C07-m9": ["C17"]}
 nw = int(sys.argv[1]); seeds = sys.argv[2:]
 base = "/tmp/mutpar"; os.makedirs(base, exist_ok=True)
 wq = queue.Queue()
